@@ -21,6 +21,15 @@ CHECKS = {
  "C12": ("grammar skeletons x bounded deviations (1: every position x all 256 values; 2: grammar alphabet; truncate/extend/insert/delete; all short strings) through every parser, against strict recognisers written from X.690 / BIP-66 / RFC 5480; build/parse identities",
          "Bounded exhaustive exploration of the four wire formats: ~11 M distinct strings per quick run are parsed by the implementation (inside recover()) and by recursive-descent recognisers of the grammars; accepted inputs must re-encode to themselves (uniqueness), (r,s,v) triples must survive build-then-parse in all three formats, SPKI inputs include every unused-bits value with shifted content, foreign OIDs, non-minimal arcs and a SEC 1 payload corpus; a caller-mutation step after parsing checks the key does not alias the input.",
          "Trusted: Go toolchain, /verif/ref/der.go recognisers (validated on the Wycheproof and BIP-66 vectors). The space of all byte strings is covered by skeleton+deviation structure up to 2 deviations.", "DESIGN.md §6 C12"),
+ "C07": ("product enumeration of constructed (Q,digest,r,s) tuples (reference-signed, chosen R via key recovery incl. x(R)>=n, R=infinity, deviations by one, r/s at 0/n, digest lengths 0..65) x entry points x 3 encodings x 15 option sets x recovery ids 0..255, against literal SEC 1 4.1.4",
+         "Bounded exhaustive exploration of the verification predicate: every tuple is built so that it sits on a decision boundary, then pushed through VerifyRaw, the private-key verification path (hook), Verify under every option set / encoding (recoverable format with every id 0..255 on valid tuples) and bitcoin.VerifyASN1 with five sighash shapes; each boolean is compared with the reference predicate (strict parse + digest-length rule + low-s + 4.1.4 + recovery reconstructs Q). Both 'nothing else accepted' and 'nothing valid rejected' are checked because valid-by-construction tuples are a populated class.",
+         "Trusted: Go toolchain, math/big, /verif/ref (ECDSA, DER/compact/BIP-66 recognisers; validated on Wycheproof). (r,s) pairs are a constructed alphabet, not [0,2^256)^2.", "DESIGN.md §6 C07"),
+ "C08": ("enumeration of (key, digest, reader script, option set) tuples; every produced signature judged by the reference verifier, parsers, recovery over all ids 0..255, SelfVerify toggling and Sign/SignRaw agreement; deterministic search for short-integer signatures",
+         "Bounded exhaustive exploration of the signing API: 12+ keys (1, n-1, both public-y parities) x 13 digests (boundary values, every admissible / inadmissible length class) x 6 reader scripts (constant, counter, 1-byte delivery, split, RFC 6979) x 15 option sets; outputs must satisfy 1<=r<n, 1<=s<=(n-1)/2, verify under the reference with d*G and under Verify in all encodings, parse back to the same (r,s,v), recover exactly the signer for exactly the emitted id among 0..255, be unchanged by SelfVerify, and inadmissible inputs must error with no signature.",
+         "Trusted: /verif/ref. Recovery-id bit 1 = 1 on the producer side is unreachable (needs a discrete log); stated in evidence.", "DESIGN.md §6 C08"),
+ "C11": ("enumeration of (digest, r, s) triples x all recovery ids 0..255 (valid / overflowing second candidates, non-x-coordinates, constructed sR = eG, reference-signed) against SEC 1 4.1.6 with explicit id; every returned key re-verified",
+         "Bounded exhaustive exploration of RecoverPublicKey: for each triple all 256 ids are tried; error-vs-key and the key itself must equal the reference Q = r^-1(sR - eG); every returned key must verify (r,s) under the reference and under VerifyRaw / recoverable Verify; Q = infinity and ids > 3 must fail.",
+         "Trusted: /verif/ref.", "DESIGN.md §6 C11"),
 }
 
 PENDING_REASON = "check under construction in this round; not yet claimed (see DESIGN.md §6 for the planned bounded-exhaustive check)"
